@@ -27,6 +27,7 @@ func init() {
 	ruleText["R06.2"] = "every assignment to frame.deferred is append([][]reflect.Value{rec}, <same frame>.deferred...); the unwinding function ranges forward over frame.deferred once and calls rec[0].Call(rec[1:]); nothing else reads the records"
 	ruleText["R06.3"] = "in every closure recording a deferred call, elements 1.. of the record are fresh copies (reflect.New(T).Elem()+Set, or a copier function), never the aliasing result of a value generator"
 	ruleText["R06.4"] = "in the unwinding function: recovered = recover() dominates the loop over deferred records, which dominates the conditional panic(recovered); the recover builtin reads and clears frame.anc.recovered"
+	ruleText["R06.7"] = "the unwinding loop invokes each deferred record through a function that has its own deferred, non-re-panicking recover, so that a panic in one deferred call does not skip the others"
 	ruleText["R06.6"] = "same analysis as C01/R01.4: copyNode copies or re-initialises every node field the AST builder sets, so that defer/recover/panic statements inside instantiated generic functions are compiled like the same statements elsewhere"
 	ruleText["R06.5"] = "a converting recover assigns Panic{Value: <recovered>, ...} to the error result of its function"
 }
@@ -231,7 +232,7 @@ func c06R2(ic *IC, r *Report) {
 		// Reads other than the lhs and the append tail.
 		ast.Inspect(fi.Decl.Body, func(n ast.Node) bool {
 			rs, ok := n.(*ast.RangeStmt)
-			if ok && selField(ic.Info, rs.X) == defFld {
+			if ok && fieldOrLocalCopy(ic, fi.Decl.Body, rs.X, defFld) {
 				reads++
 				key := name + "/consumer"
 				// forward range, body calls val[0].Call(val[1:])
@@ -240,33 +241,99 @@ func c06R2(ic *IC, r *Report) {
 					valObj = ic.Info.ObjectOf(id)
 				}
 				okCall := false
-				ast.Inspect(rs.Body, func(m ast.Node) bool {
-					c, ok := m.(*ast.CallExpr)
-					if !ok || !isCallTo(ic.Info, c, "reflect.Value.Call") || len(c.Args) != 1 {
-						return true
-					}
-					recv := unparen(unparen(c.Fun).(*ast.SelectorExpr).X)
-					ix, ok1 := recv.(*ast.IndexExpr)
-					sl, ok2 := unparen(c.Args[0]).(*ast.SliceExpr)
-					if !ok1 || !ok2 {
-						return true
-					}
-					zero := false
-					if tv, ok := ic.Info.Types[ix.Index]; ok && tv.Value != nil && tv.Value.ExactString() == "0" {
-						zero = true
-					}
-					one := false
-					if sl.Low != nil && sl.High == nil {
-						if tv, ok := ic.Info.Types[sl.Low]; ok && tv.Value != nil && tv.Value.ExactString() == "1" {
-							one = true
+				isolated := false
+				// recordCall reports whether body invokes rec[0].Call(rec[1:]) for the record object rec.
+				var recordCall func(body ast.Node, rec types.Object) bool
+				recordCall = func(body ast.Node, rec types.Object) bool {
+					found := false
+					ast.Inspect(body, func(m ast.Node) bool {
+						c, ok := m.(*ast.CallExpr)
+						if !ok || !isCallTo(ic.Info, c, "reflect.Value.Call") || len(c.Args) != 1 {
+							return true
 						}
-					}
-					a, b := rootIdent(ix.X), rootIdent(sl.X)
-					if zero && one && a != nil && b != nil && ic.Info.ObjectOf(a) == valObj && ic.Info.ObjectOf(b) == valObj {
-						okCall = true
-					}
-					return true
-				})
+						recv := unparen(unparen(c.Fun).(*ast.SelectorExpr).X)
+						ix, ok1 := recv.(*ast.IndexExpr)
+						sl, ok2 := unparen(c.Args[0]).(*ast.SliceExpr)
+						if !ok1 || !ok2 {
+							return true
+						}
+						zero := false
+						if tv, ok := ic.Info.Types[ix.Index]; ok && tv.Value != nil && tv.Value.ExactString() == "0" {
+							zero = true
+						}
+						one := false
+						if sl.Low != nil && sl.High == nil {
+							if tv, ok := ic.Info.Types[sl.Low]; ok && tv.Value != nil && tv.Value.ExactString() == "1" {
+								one = true
+							}
+						}
+						a, b := rootIdent(ix.X), rootIdent(sl.X)
+						if zero && one && a != nil && b != nil && ic.Info.ObjectOf(a) == rec && ic.Info.ObjectOf(b) == rec {
+							found = true
+						}
+						return true
+					})
+					return found
+				}
+				if recordCall(rs.Body, valObj) {
+					okCall = true
+				} else {
+					// through a helper receiving the record: h(rec) or x.h(rec)
+					ast.Inspect(rs.Body, func(m ast.Node) bool {
+						c, ok := m.(*ast.CallExpr)
+						if !ok {
+							return true
+						}
+						hf, _ := calleeOf(ic.Info, c).(*types.Func)
+						if hf == nil || ic.G.Funcs[hf] == nil {
+							return true
+						}
+						for ai, a := range c.Args {
+							id, ok := unparen(a).(*ast.Ident)
+							if !ok || ic.Info.ObjectOf(id) != valObj {
+								continue
+							}
+							hd := ic.G.Funcs[hf].Decl
+							// the parameter receiving the record
+							pi := 0
+							for _, fl := range hd.Type.Params.List {
+								for _, pn := range fl.Names {
+									if pi == ai && recordCall(hd.Body, ic.Info.ObjectOf(pn)) {
+										okCall = true
+										// isolated: the helper has a deferred recover that does not re-panic
+										for _, st := range hd.Body.List {
+											if ds, ok := st.(*ast.DeferStmt); ok {
+												if dl, ok := ds.Call.Fun.(*ast.FuncLit); ok {
+													rec, rep := false, false
+													ast.Inspect(dl.Body, func(k ast.Node) bool {
+														if cc, ok := k.(*ast.CallExpr); ok {
+															if fid, ok := cc.Fun.(*ast.Ident); ok {
+																if fid.Name == "recover" {
+																	rec = true
+																}
+																if fid.Name == "panic" {
+																	rep = true
+																}
+															}
+														}
+														return true
+													})
+													if rec && !rep {
+														isolated = true
+													}
+												}
+											}
+										}
+									}
+									pi++
+								}
+							}
+						}
+						return true
+					})
+				}
+				r.Check(isolated, "R06.7", name+"/deferred-calls-isolated", ic.pos(rs.Pos()), "each deferred record runs under its own recover",
+					"the deferred records of a frame are invoked one after the other without a recover of their own: a panic raised by one deferred function aborts the loop and the remaining deferred functions never run (Go runs them and lets the new panic replace the old one)")
 				r.Check(okCall && valObj != nil, "R06.2", key, ic.pos(rs.Pos()), "forward range calling rec[0].Call(rec[1:])",
 					"the consumer of frame.deferred in "+name+" does not call rec[0].Call(rec[1:]) for each record in order")
 			}
@@ -394,7 +461,7 @@ func c06R4(ic *IC, r *Report) {
 						}
 					}
 				case *ast.RangeStmt:
-					if selField(ic.Info, x.X) == defFld {
+					if fieldOrLocalCopy(ic, fl.Body, x.X, defFld) {
 						loop = x
 					}
 				case *ast.IfStmt:
@@ -502,4 +569,29 @@ func c06R4(ic *IC, r *Report) {
 	r.Check(throughAnc > 0 && others == 0, "R06.4", funcName(rec.Decl)+"/caller-frame", pos, "recover() consults only f.anc.recovered (the frame of the function that deferred the caller)",
 		fmt.Sprintf("recover() reads frame.recovered through something other than f.anc (%d accesses): it would stop panics when not called directly by a deferred function, or miss them", others))
 	r.Check(clears, "R06.4", funcName(rec.Decl)+"/clears", pos, "recover() clears f.anc.recovered", "recover() does not clear f.anc.recovered: the panic resumes after being recovered")
+}
+
+// fieldOrLocalCopy reports whether e denotes field fld, directly or through a local
+// variable assigned from it (x := f.fld) in body.
+func fieldOrLocalCopy(ic *IC, body ast.Node, e ast.Expr, fld *types.Var) bool {
+	if selField(ic.Info, e) == fld {
+		return true
+	}
+	id, ok := unparen(e).(*ast.Ident)
+	if !ok {
+		return false
+	}
+	obj := ic.Info.ObjectOf(id)
+	found := false
+	ast.Inspect(body, func(n ast.Node) bool {
+		if as, ok := n.(*ast.AssignStmt); ok && len(as.Lhs) == len(as.Rhs) {
+			for i, l := range as.Lhs {
+				if lid, ok := l.(*ast.Ident); ok && ic.Info.ObjectOf(lid) == obj && selField(ic.Info, as.Rhs[i]) == fld {
+					found = true
+				}
+			}
+		}
+		return true
+	})
+	return found
 }
